@@ -5,6 +5,8 @@ impl Walrus {
         self.mark_topic_dirty(col_name);
         let writer = self.get_or_create_writer(col_name)?;
         writer.write(raw_bytes)?;
+        #[cfg(walrus_verif)]
+        crate::wal::verif::yield_point("a_written");
         self.increment_topic_entry_count(col_name, 1);
         Ok(())
     }
@@ -13,6 +15,8 @@ impl Walrus {
         self.mark_topic_dirty(col_name);
         let writer = self.get_or_create_writer(col_name)?;
         writer.batch_write(batch)?;
+        #[cfg(walrus_verif)]
+        crate::wal::verif::yield_point("b_written");
         self.increment_topic_entry_count(col_name, batch.len() as u64);
         Ok(())
     }
